@@ -241,8 +241,9 @@ def as_float_array(a, n, what):
         raise Violation(f"{what} is {type(a).__name__}, not ndarray")
     if a.shape != (n,):
         raise Violation(f"{what} has shape {a.shape}, expected ({n},)")
-    if not np.issubdtype(a.dtype, np.floating):
-        raise Violation(f"{what} has dtype {a.dtype}, expected float")
+    if not (np.issubdtype(a.dtype, np.floating) or np.issubdtype(a.dtype, np.integer)):
+        raise Violation(f"{what} has dtype {a.dtype}, expected a real numeric dtype")
+    a = a.astype(np.float64) if not np.issubdtype(a.dtype, np.floating) else a
     if not np.all(np.isfinite(a)):
         raise Violation(f"{what} contains non-finite values")
     return a
